@@ -469,6 +469,17 @@ class SResponse:
     def truth(self):
         return ctx().interp.truth(self.status_code < 400)
 
+    # requests.Response is a context manager (close on exit); the undecoded stream `raw`, `iter_content`, headers and
+    # Content-Encoding are NOT modelled: code that reads them is 'unsupported' (undecided), never judged
+    def __enter__(self):
+        return self
+
+    def __exit__(self, *a):
+        return False
+
+    def close(self):
+        return None
+
 
 class AnyOtherRequestException(_requests.exceptions.RequestException):
     """stands for every RequestException subclass that is none of ConnectionError, Timeout, HTTPError"""
